@@ -52,7 +52,7 @@ RECURSIVE NullSeq(_, _)
 Nullable(e) == CASE e.op \in {"opt", "star", "void", "cut", "and", "not", "const", "oconst", "oalert", "constbad", "emptyclosure", "eof", "eol", "fail"} -> TRUE
                  [] e.op = "pat" -> e.min = 0
                  [] e.op = "opat" -> e.nul
-                 [] e.op = "join" -> ~e.plus
+                 [] e.op = "join" -> ~e.plus \/ Nullable(e.e)      \* s%{e}+ == e {s ~ e}: one empty element is enough, the separator never matters
                  [] e.op = "seq" -> NullSeq(e.es, 1)
                  [] e.op = "alt" -> \E i \in 1..Len(e.es) : Nullable(e.es[i])
                  [] e.op \in {"group", "skipgroup", "named", "namedlist", "ovr", "ovrlist", "plus", "skipto"} -> Nullable(e.e)
